@@ -48,10 +48,17 @@ class Injector:
         if self.crash_at is not None and idx == self.crash_at:
             if self.crash_mode == "torn" and kind == "write":
                 return "torn"
+            if self.crash_mode == "after" and kind == "open_w":
+                return "after"   # the caller performs the open (which may truncate the file) and then dies
             self.log.write("CRASH before %d\n" % idx)
             self.log.flush()
             os._exit(137)
         return None
+
+    def die_after(self, idx):
+        self.log.write("CRASH after %d\n" % idx)
+        self.log.flush()
+        os._exit(137)
 
     def die(self, idx):
         self.log.write("CRASH torn %d\n" % idx)
@@ -106,8 +113,13 @@ def install(root, log_path):
         if isinstance(mode, str) and any(c in mode for c in "wax+") and not isinstance(file, int):
             rel = inj.relevant(file)
             if rel is not None and inj.armed:
-                inj.hit("open_w", file)
-                return FileProxy(inj, _REAL["open"](file, mode, *a, **kw), file)
+                r = inj.hit("open_w", file)
+                f = _REAL["open"](file, mode, *a, **kw)
+                if r == "after":
+                    # whatever fills the file afterwards may bypass write() (sendfile, another descriptor): the moment right after
+                    # the open -- file created or truncated, nothing in it -- is a crash point of its own
+                    inj.die_after(inj.counter - 1)
+                return FileProxy(inj, f, file)
         return _REAL["open"](file, mode, *a, **kw)
 
     def mkdir(path, *a, **kw):
